@@ -205,6 +205,27 @@ func fieldAccesses(fn *ssa.Function, fv *types.Var) []FieldAccess {
 						out = append(out, FieldAccess{fn, y, x, "addr"})
 					}
 				case *ssa.DebugRef:
+				case *ssa.Slice:
+					// &x.f[:] of an array field: a view; writes through it are byte writes
+					kind := "slice"
+					if y.Referrers() != nil {
+						for _, w := range *y.Referrers() {
+							if dst := byteWriteDst(w); dst == ssa.Value(y) {
+								kind = "store"
+							}
+						}
+					}
+					out = append(out, FieldAccess{fn, y, x, kind})
+				case *ssa.IndexAddr:
+					kind := "load"
+					if y.Referrers() != nil {
+						for _, w := range *y.Referrers() {
+							if st, ok := w.(*ssa.Store); ok && st.Addr == ssa.Value(y) {
+								kind = "store"
+							}
+						}
+					}
+					out = append(out, FieldAccess{fn, y, x, kind})
 				default:
 					out = append(out, FieldAccess{fn, u, x, "addr"})
 				}
@@ -262,6 +283,8 @@ type keyer struct {
 	fwdLocal bool
 	// pureFieldLoads: treat loads of struct fields through pointers as pure (key = address shape).
 	pureFieldLoads bool
+	// paramPos: name parameters by position ("p:0") instead of by name.
+	paramPos bool
 	// loadKey, when set, names loads that are not forwarded (e.g. with a side-effect epoch).
 	loadKey func(ld *ssa.UnOp, addrKey string) string
 }
@@ -289,6 +312,13 @@ func (k *keyer) key(v ssa.Value) string {
 		}
 		return "c:" + x.Value.ExactString()
 	case *ssa.Parameter:
+		if k.paramPos && x.Parent() != nil {
+			for i, q := range x.Parent().Params {
+				if q == x {
+					return fmt.Sprintf("p:%d", i)
+				}
+			}
+		}
 		return "p:" + x.Name()
 	case *ssa.FreeVar:
 		return "fv:" + x.Name()
@@ -397,9 +427,28 @@ func (p *Prog) expr(v ssa.Value) string {
 	return exprDepth(v, 0)
 }
 
+// exprCanon prints like expr but names parameters by position ($0, $1, ...), so that the text is
+// stable under renaming of parameters and receivers.
+func exprCanon(v ssa.Value) string {
+	canonParams = true
+	defer func() { canonParams = false }()
+	return exprDepth(v, 0)
+}
+
+var canonParams bool
+
 func exprDepth(v ssa.Value, d int) string {
 	if v == nil {
 		return ""
+	}
+	if canonParams {
+		if pa, ok := v.(*ssa.Parameter); ok && pa.Parent() != nil {
+			for i, q := range pa.Parent().Params {
+				if q == pa {
+					return fmt.Sprintf("$%d", i)
+				}
+			}
+		}
 	}
 	if d > 6 {
 		return v.Name()
@@ -468,10 +517,16 @@ func exprDepth(v ssa.Value, d int) string {
 	case *ssa.Extract:
 		return exprDepth(x.Tuple, d+1) + "#" + fmt.Sprint(x.Index)
 	case *ssa.Alloc:
+		if canonParams {
+			return "local"
+		}
 		if x.Comment != "" {
 			return x.Comment
 		}
 	case *ssa.Phi:
+		if canonParams {
+			return "phi"
+		}
 		if x.Comment != "" {
 			return x.Comment
 		}
